@@ -10,7 +10,8 @@ ThrVerdict(ev) ==
     LET exp == IF ev.fn = "binary" THEN Map(ev.src, LAMBDA p : P_Binary(p, ev.t, ev.maxv, ev.dir))
                ELSE Map(ev.src, LAMBDA p : P_Truncate(p, ev.t, ev.mode, ev.dir))
         key == "threshold_" \o ev.fn \o ":" \o ev.types \o ":" \o ev.dir \o ":" \o ev.mode
-    IN IF exp = ev.dst THEN {} ELSE {V("P_ThresholdPerPixel", "None", key, [t |-> ev.t, maxv |-> ev.maxv, dims |-> Dims(ev.src), ch |-> ev.ch])}
+    IN (IF exp = ev.dst THEN {} ELSE {V("P_ThresholdPerPixel", "None", key, [t |-> ev.t, maxv |-> ev.maxv, dims |-> Dims(ev.src), ch |-> ev.ch])})
+       \cup (IF Has(ev, "outside") /\ ev.outside # 0 THEN {V("P_WritesOnlyDestination", "None", key, [outside |-> ev.outside, dims |-> Dims(ev.src)])} ELSE {})
 
 OtsuVerdict(ev) ==
     IF Dims(ev.src) = Dims(ev.dst) /\ P_IsSomeBinary(ev.src, ev.dst, ev.maxv) THEN {}
@@ -24,7 +25,8 @@ MorphVerdict(ev) ==
                  [] ev.fn = "closing" -> P_Erode(P_Dilate(ev.src, se), se)
                  [] ev.fn = "dilate2" -> P_Dilate(P_Dilate(ev.src, se), se)
                  [] ev.fn = "erode2"  -> P_Erode(P_Erode(ev.src, se), se)
-    IN IF H(ev.src) = 0 \/ W(ev.src) = 0 \/ exp = ev.dst THEN {}
+    IN (IF Has(ev, "outside") /\ ev.outside # 0 THEN {V("P_WritesOnlyDestination", "None", ev.fn \o ":" \o ev.types, [outside |-> ev.outside, dims |-> Dims(ev.src)])} ELSE {})
+       \cup IF H(ev.src) = 0 \/ W(ev.src) = 0 \/ exp = ev.dst THEN {}
        ELSE {V("P_MorphologyMinMax", "None", ev.fn \o ":" \o ev.types, [dims |-> Dims(ev.src), K |-> Len(se), ch |-> ev.ch, src |-> ev.src, se |-> se, dst |-> ev.dst])}
 
 MedianVerdict(ev) ==
